@@ -20,3 +20,22 @@ class OnPolicyStep:
         if num_envs == 1:
             return jax.eval_shape(lambda k: AbstractOnPolicyStepState.initial(env, pol, cb, k), jr.key(0))
         return jax.eval_shape(lambda k: eqx.filter_vmap(AbstractOnPolicyStepState.initial, in_axes=(None, None, None, 0))(env, pol, cb, jr.split(k, num_envs)), jr.key(0))
+
+
+def concrete_spaces(tr, interp, **objs):
+    """`given` map for Traced.symbols: every input leaf whose name contains 'space' gets the concrete value it has in the example objects
+    (prefix -> object), e.g. concrete_spaces(tr, it, st_env=env, st_policy=pol, st_target_policy=pol).  Declared spaces are static configuration."""
+    import jax
+    import numpy as np
+    from jaxsmt.trace import leaf_names, _isleaf
+    table = {}
+    for prefix, obj in objs.items():
+        names = leaf_names(obj, prefix=prefix + "_")
+        leaves = [l for l in jax.tree_util.tree_leaves(obj) if _isleaf(l)]
+        for n, l in zip(names, leaves):
+            table[n.rstrip("_")] = l
+    given = {}
+    for n, av in zip(tr.in_names, tr.in_avals):
+        if "space" in n and n in table and hasattr(table[n], "shape") and not isinstance(table[n], jax.ShapeDtypeStruct):
+            given[n] = interp.lift(np.asarray(table[n]), av.dtype)
+    return given
